@@ -44,6 +44,31 @@ def table_checks():
     return "\n".join(rows)
 
 
+def table_ties():
+    rows = ["| id | tie by translation: functions regenerated from the source (status) | tie lemmas | other source-level ties recorded in the evidence |",
+            "|---|---|---|---|"]
+    for p in props():
+        pid = p["id"]
+        evp = os.path.join(HERE, "evidence", pid + ".json")
+        if not os.path.exists(evp):
+            continue
+        cov = load(evp)["coverage"]
+        tt = cov.get("translated_tie")
+        if tt:
+            fns = ", ".join("`%s`%s" % (k, "" if v == "translated" else " (" + str(v)[:40] + ")") for k, v in sorted(tt.get("functions", {}).items()))
+            lem = "%s: %s" % (tt.get("lemmas", "Core/TranslatedTie.vo"), "checked" if tt.get("lemmas_check") is True else tt.get("lemmas_check"))
+        else:
+            fns, lem = "—", "—"
+        other = []
+        for k, v in sorted(cov.items()):
+            if k == "translated_tie" or not any(w in k.lower() for w in ("tie", "script", "const")):
+                continue
+            txt = json.dumps(v, sort_keys=True) if not isinstance(v, str) else v
+            other.append("%s: %s" % (k, txt[:160].replace("|", "/")))
+        rows.append("| %s | %s | %s | %s |" % (pid, fns.replace("|", "/"), lem, "; ".join(other) or "—"))
+    return "\n".join(rows)
+
+
 def table_seeds():
     rows = ["| seeded change | property | what it needs to manifest (first line of its README) | tests still pass, demo fails | caught by |",
             "|---|---|---|---|---|"]
@@ -98,7 +123,7 @@ def table_findings():
 def main():
     p = os.path.join(HERE, "DESIGN.md")
     s = open(p).read()
-    for name, fn in (("CHECKS", table_checks), ("SEEDS", table_seeds), ("FIXES", table_fixes), ("FINDINGS", table_findings)):
+    for name, fn in (("CHECKS", table_checks), ("TIES", table_ties), ("SEEDS", table_seeds), ("FIXES", table_fixes), ("FINDINGS", table_findings)):
         b, e = "<!-- BEGIN GENERATED %s -->" % name, "<!-- END GENERATED %s -->" % name
         if b in s and e in s:
             i, j = s.index(b) + len(b), s.index(e)
